@@ -165,6 +165,11 @@ G("g17", DS("d1", [], dispatch="D", overloads={1: O("X"), 2: DS("impl2", [O("Y")
 G("g18", DS("d1", [O("A")], dispatch=DS("disp", [O("M"), O("N", C(0))], kind="sum"), overloads={0: O("X"), 1: DS("i1", [O("Y")])}),
   [("A", "i"), ("M", "i"), ("N", "i"), ("X", "i"), ("Y", "i")], [{"M": 1, "Y": 2}, {"M": 0, "N": 0, "X": 2}],
   ["ds", "overload", "dsdispatch"], "dispatch is a dataset (M + N)")
+G("g39", DS("d1", [O("A")]), [("A", "c", (1, True, 0, False, None, "", "1"))], [{"A": ("c", 0)}, {"A": ("c", 1)}], ["ds", "typed"],
+  "values that are equal but of different JSON type (1 / true, 0 / false), null and '' under an option without default")
+G("g3E", DS("top", [DS("fb", [O("B", C(0))], dispatch=DS("disp", [O("M", C(0))], kind="sum"), overloads={1: O("Y", C(5))}, derive={"M": 1})]),
+  [("B", "i"), ("Y", "i"), ("M", "i")], [{"B": 1}, {"Y": 2}], ["ds", "dsdispatch", "preset"],
+  "a with_options derivative of a dataset whose dispatch is a dataset, derived while the graph is built")
 # --- switch / case / coalesce ---------------------------------------------------------------------------------
 G("g20", ("switch", "D", {0: O("X"), 1: DS("d1", [O("A")])}, O("Z", C(9))), [("D", "i"), ("X", "i"), ("A", "i"), ("Z", "i")],
   [{"D": 1, "A": 2}, {"D": 0, "X": 1}], ["switch"])
@@ -184,6 +189,12 @@ G("g26", ("case", O("A"), [(("eqopt", "T"), O("X")), (("gt", 5), DS("c2", [O("Y"
 G("g34", ("case", O("A"), [(("eqopt", "T"), C("hit")), (("eqopt", "U"), O("X", C(0)))], C("miss")),
   [("A", "i"), ("T", "i"), ("U", "i"), ("X", "i")], [{"A": 1, "T": 1, "U": 2}, {"A": 1, "T": 2, "U": 1, "X": 3}], ["case"],
   "option-dependent conditions selecting constant branches (nothing but the conditions reads T and U)")
+G("g3A", ("cached", ("switch", "D", {1: C("one"), 2: C("two")}, C("other"))), [("D", "t", "M"), ("M", "i")],
+  [{"D": ("t",), "M": 1}, {"D": 2}], ["switch", "templ", "cached"], "the dispatch VALUE is a templated reference; branches are constants")
+G("g3F", ("casefork", O("A"), (("eq", 0), O("X", C(10))), (("gt", 5), O("Y", C(20))), C(30)), [("A", "i"), ("X", "i"), ("Y", "i")],
+  [{"A": 9}, {"A": 0, "X": 1}], ["case"], "one case-when stem extended in two different ways (when / otherwise) and also used itself")
+G("g3D", ("coalesce", [O("A", DS("dd", [O("B")])), C(0)]), [("A", "i"), ("B", "i")], [{"B": 1}, {"A": 2}], ["coalesce", "ds"],
+  "a coalesce member whose default is a dataset (explain / validate must not run it)")
 G("g27", ("case", ("coalesce", [O("A"), O("B")]), [(("eq", 1), O("X"))], O("Y")), [("A", "i"), ("B", "i"), ("X", "i"), ("Y", "i")],
   [{"B": 1, "X": 2}, {"A": 3, "Y": 2}], ["case", "coalesce"], "case-when whose dispatch is a coalesce")
 G("g32", ("case", O("A"), [(("isnone",), O("X")), (("gt", 0), DS("c2", [O("Y")]))], C(3)),
@@ -228,6 +239,9 @@ G("g35", ("coalesce", [O("A"), DS("fb", [O("B", C(0))], dispatch=DS("disp", [O("
 G("g37", ("case", O("A"), [(("eq", 0), O("X", C(1))), (("gtds", DS("thr", [O("T")], kind="sum")), O("Y", C(2)))], C(3)),
   [("A", "i"), ("T", "i"), ("X", "i")], [{"A": 7, "T": 2}, {"A": 0}], ["case", "ds"],
   "a later condition is produced by a dataset (it must not run when an earlier case matches)")
+G("g3C", ("map", ("tuple", [O("K1"), O("K2")]), [("K1", O("XS")), ("K2", ("rawiter", [O("P"), O("Q", C(0))]))]),
+  [("XS", "l"), ("P", "i"), ("Q", "i")], [{"XS": [1, 2], "P": 3}, {"XS": [1], "P": 3, "Q": 4}], ["map", "lazy"],
+  "Map over two axes, the second one a one-shot iterable (a generator)")
 G("g46", ("iter", [O("A"), DS("d1", [O("B")]), O("A")]), [("A", "i"), ("B", "i")], [{"A": 1, "B": 2}, {"A": 2, "B": 2}], ["coll"])
 # --- templates ------------------------------------------------------------------------------------------------
 G("g50", ("template", "x{A}-{S.X}", []), [("A", "c", ("q", "", True, None)), ("S.X", "c", ("r", "zz", False))],
@@ -235,6 +249,10 @@ G("g50", ("template", "x{A}-{S.X}", []), [("A", "c", ("q", "", True, None)), ("S
 G("g51", ("template", "{:p:}/{A}", [("p", DS("tp", [O("B")]))]), [("A", "c", ("q", "", True)), ("B", "i")],
   [{"A": ("c", 0), "B": 1}, {"A": ("c", 1), "B": 1}], ["templ", "ds"], "template parameter is a dataset")
 # --- wrappers -------------------------------------------------------------------------------------------------
+G("g3B", ("with", ("tuple", [O("K"), O("A", C(0))]), {"K": 1}, False), [("K", "c", (None, 0, False, "", 5)), ("A", "i")],
+  [{"K": ("c", 0)}, {"A": 1}], ["with", "falsy"], "a default option against which the caller passes None / falsy values")
+G("g3G", ("with", ("tuple", [O("K", C(9)), O("A", C(0))]), {"K": None}, True), [("K", "i"), ("A", "i")],
+  [{"A": 1}, {"K": 3}], ["with", "falsy"], "None as a forced pre-set value")
 G("g60", ("with", ("tuple", [O("S.X"), O("S.Y", C(0)), O("A")]), {"S": {"X": 1}}, True), [("S.X", "i"), ("S.Y", "i"), ("A", "i")],
   [{"S.Y": 2, "A": 3}, {"S.X": 9, "A": 3}], ["with"])
 G("g61", ("with", ("tuple", [O("S.X"), O("S.Y", C(0)), O("A")]), {"S": {"X": 1}, "A": 5}, False), [("S.X", "i"), ("S.Y", "i"), ("A", "i")],
